@@ -34,6 +34,12 @@ CHECKS = {
         text="Each catalogue program states when each future must be done given the configured retry delays / poll intervals / timeouts (all shorter than the 2 s / 30 s fallback timers); every single pre-emption placement is executed, so a lost wake-up shows up as a completion at +2 s/+30 s/+interval or never. Cancelling the delegate/inner/input future behind the back of every layer type and combinator must leave the derived future done.",
         design_ref="DESIGN.md section 4 (C03)", note=ENGINE_NOTE),
 
+    "C05": dict(
+        category="exploration",
+        technique="property-based testing: Hypothesis-drawn policy parameters against the docstring formula (plain), and Hypothesis-drawn outcome scripts x policies x concurrent submissions x tapes under the deterministic scheduler with an exact virtual clock; oracle = timestamped invocation log vs sequential reference",
+        text="ExceptionRetryPolicy.should_retry/sleep_time are compared with the documented formula over generated parameters; under the virtual clock, 1-4 concurrently retrying submissions with scripted outcomes and (scripted or exception) policies are checked for: non-overlapping attempts, start(k+1)-end(k) equal to the policy delay (+-0.01 s, only >= when workers are scarce), one policy consultation per finished attempt with attempt=1,2,.., sleep_time consulted iff retrying, exact invocation counts, no done state/callback before the final attempt ends, final outcome identity.",
+        design_ref="DESIGN.md section 4 (C05)", note=ENGINE_NOTE),
+
     "C06": dict(
         category="exploration",
         technique="history-invariant property testing: exhaustive single-pre-emption sweeps of cancel-vs-hand-over/completion/retry-instant programs + Hypothesis-drawn stacks, cancel times and tapes; oracle = order predicates over the totally ordered event history (cancel return vs callable start vs delegate submit vs cancel arriving at the innermost future)",
